@@ -184,9 +184,12 @@ variable {D : Type}
 def Dir.create (mode : Mode) (sfx : Str) : Dir D :=
   { mode, sfx, root := [], ncDir := true, nc := [], logs := [], md5 := [], cCache := [], ncCache := [] }
 
-/-- a new store object on the same directory -/
+/-- a new store object on the same directory, the mode given as a string (`mode="r"`), as the
+    harness does.  `_source_check_create` compares the *raw* argument with the enum member
+    (`mode is READONLY`), which is never true for a string, so the three sub-directories are
+    (re)created for every mode, read-only included. -/
 def reopen (s : Dir D) (mode : Mode) : Dir D :=
-  { s with mode := mode, cCache := [], ncCache := [], ncDir := s.ncDir || mode != .r }
+  { s with mode := mode, cCache := [], ncCache := [], ncDir := true }
 
 def globC (s : Dir D) : List Str := (keys s.root).filter (fun n => endsWith n ('.' :: s.sfx))
 def globNc (s : Dir D) : List Str :=
